@@ -139,6 +139,16 @@ func (db *DB) Start(initCheckpoints []recovery.CheckpointHandle) error {
 	db.sstables = latestCP.Levels
 	db.seqNum = latestCP.Levels.LatestSeqNum
 
+	// Continue numbering table files after the ones the checkpoint references, so
+	// that tables written from now on never overwrite them.
+	for level := range db.sstables.DescendLevels() {
+		for t := range level.AllTables() {
+			if id, ok := sst.TableID(t.Name()); ok {
+				db.tableWriter.AdvancePast(id)
+			}
+		}
+	}
+
 	// Start a new writer that doesn't write to a file yet.
 	db.wal = wal.NewWriter(db.fs, latestCP.NextWALID(), db.maxWALSize)
 
